@@ -1,25 +1,569 @@
-//! C14 — not built yet (stub).
+//! C14 — compaction preserves observable contents.
+//! Finder (implementation vs implementation): a random history (several commits with adds,
+//! upserts and deletes over documents with text/keyword/numeric/nested fields, empty arrays,
+//! nulls, multi-valued values, nested arrays with null elements) ends in `compact`; live ids,
+//! stored fields and the id sets of ~20 random queries + ~20 random filters are taken from a fresh
+//! reader before and after and must be identical; afterwards at most one segment and (when
+//! compaction ran) no tombstones; a refusal must leave the manifest bytes and the file listing
+//! unchanged.
+//! Correspondence: result class (ok / refused / failed), contents and segment count after
+//! compaction vs `SL.Contents.compact` with `SL.Doc.project` / `ingestOk` / `compactSafe`; stored
+//! fields of every live document vs `SL.Doc.project`.
+use super::c04::{canon, canon_map, gen_doc, model_contents, schema_json, Store, AS, TAGS, TS, WORDS};
+use crate::idx;
 use crate::proto::Driver;
 use crate::rng::Rng;
 use crate::summary::Summary;
+use crate::util::guarded;
 use crate::{Prop, Tier};
 use serde_json::{json, Value};
+use std::collections::BTreeMap;
 
-pub struct Stub;
-pub static P: Stub = Stub;
+pub struct C14;
+pub static P: C14 = C14;
 
-impl Prop for Stub {
+fn gen_leaf_filter(rng: &mut Rng) -> Value {
+  match rng.below(5) {
+    0 => json!({"KeywordEq": {"field": "tag", "value": *rng.pick(&TAGS)}}),
+    1 => json!({"KeywordIn": {"field": "tag", "values": [*rng.pick(&TAGS), *rng.pick(&TAGS)]}}),
+    2 => {
+      let a = rng.below(12) as i64;
+      json!({"I64Range": {"field": "n", "min": a, "max": a + rng.below(8) as i64}})
+    }
+    3 => {
+      let a = rng.below(8) as f64;
+      json!({"F64Range": {"field": "x", "min": a, "max": a + 0.5 + rng.below(3) as f64}})
+    }
+    _ => json!({"Nested": {"path": "c", "filter": gen_c_filter(rng, 2)}}),
+  }
+}
+
+/// filter evaluated inside one object of `c`
+fn gen_c_filter(rng: &mut Rng, depth: usize) -> Value {
+  match rng.below(if depth == 0 { 3 } else { 8 }) {
+    0 => json!({"KeywordEq": {"field": "a", "value": *rng.pick(&AS)}}),
+    1 => {
+      let a = rng.below(5) as i64;
+      json!({"I64Range": {"field": "k", "min": a, "max": a + rng.below(3) as i64}})
+    }
+    2 => json!({"KeywordIn": {"field": "a", "values": [*rng.pick(&AS), *rng.pick(&AS)]}}),
+    3 => json!({"Not": gen_c_filter(rng, depth - 1)}),
+    4 => json!({"And": [gen_c_filter(rng, depth - 1), gen_c_filter(rng, depth - 1)]}),
+    5 => json!({"Or": [gen_c_filter(rng, depth - 1), gen_c_filter(rng, depth - 1)]}),
+    _ => {
+      let inner = match rng.below(3) {
+        0 => json!({"Not": {"KeywordEq": {"field": "t", "value": *rng.pick(&TS)}}}),
+        _ => json!({"KeywordEq": {"field": "t", "value": *rng.pick(&TS)}}),
+      };
+      json!({"Nested": {"path": "r", "filter": inner}})
+    }
+  }
+}
+
+fn gen_filter(rng: &mut Rng, depth: usize) -> Value {
+  if depth == 0 {
+    return gen_leaf_filter(rng);
+  }
+  match rng.below(6) {
+    0 => json!({"And": [gen_filter(rng, depth - 1), gen_filter(rng, depth - 1)]}),
+    1 => json!({"Or": [gen_filter(rng, depth - 1), gen_filter(rng, depth - 1)]}),
+    2 => json!({"Not": gen_filter(rng, depth - 1)}),
+    _ => gen_leaf_filter(rng),
+  }
+}
+
+fn gen_query(rng: &mut Rng, positions: bool, depth: usize) -> Value {
+  match rng.below(if depth == 0 { 5 } else { 7 }) {
+    0 => json!({"type": "term", "field": "body", "value": *rng.pick(&WORDS)}),
+    1 => json!(format!("{} {}", rng.pick(&WORDS), rng.pick(&WORDS))),
+    2 => json!({"type": "term", "field": "tag", "value": rng.pick(&TAGS).to_lowercase()}),
+    3 => {
+      if positions {
+        json!({"type": "phrase", "field": "body", "terms": [*rng.pick(&WORDS), *rng.pick(&WORDS)], "slop": rng.below(2)})
+      } else {
+        json!({"type": "prefix", "field": "body", "value": &rng.pick(&WORDS)[..2]})
+      }
+    }
+    4 => json!({"type": "prefix", "field": "body", "value": &rng.pick(&WORDS)[..1]}),
+    5 => json!({"type": "bool", "must": [gen_query(rng, positions, depth - 1)], "must_not": [gen_query(rng, positions, depth - 1)]}),
+    _ => json!({"type": "bool", "should": [gen_query(rng, positions, depth - 1), gen_query(rng, positions, depth - 1)], "filter": [gen_leaf_filter(rng)]}),
+  }
+}
+
+/// what a fresh reader shows: live documents and the id set of every probe
+fn observe(index: &searchlite_core::api::Index, probes: &[Value]) -> Result<(BTreeMap<String, Value>, Vec<Value>), String> {
+  let live = canon_map(&idx::live(index)?);
+  let reader = index.reader().map_err(|e| e.to_string())?;
+  let mut out = Vec::new();
+  for p in probes {
+    let mut req = p.clone();
+    req["limit"] = json!(10000);
+    req["execution"] = json!("bm25");
+    let o = idx::search(&reader, &req);
+    out.push(match &o {
+      idx::Outcome::Ok(v) => {
+        let mut ids = idx::hit_ids(v);
+        ids.sort();
+        json!({"ids": ids})
+      }
+      other => json!({"class": other.class()}),
+    });
+  }
+  Ok((live, out))
+}
+
+/// prefix/wildcard/regex/fuzzy nodes inside `should` lists of a query
+fn should_expansions(q: &Value) -> Vec<Value> {
+  let mut out = Vec::new();
+  if let Some(m) = q.as_object() {
+    for key in ["must", "should", "must_not"] {
+      if let Some(list) = m.get(key).and_then(|x| x.as_array()) {
+        for n in list {
+          if key == "should" && matches!(n["type"].as_str(), Some("prefix") | Some("wildcard") | Some("regex") | Some("fuzzy")) {
+            out.push(n.clone());
+          }
+          out.extend(should_expansions(n));
+        }
+      }
+    }
+  }
+  out
+}
+
+/// rewrite the nested value `c` so that the stored projection keeps its shape
+fn stabilise(doc: &mut Value) {
+  fn fix_r(r: &mut Value) -> bool {
+    // returns false when the property should be removed
+    match r {
+      Value::Array(a) => {
+        a.retain(|x| !x.is_null());
+        for o in a.iter_mut() {
+          if o.get("t").map(|t| t.is_null()).unwrap_or(true) {
+            o["t"] = json!("x");
+          }
+        }
+        !a.is_empty()
+      }
+      Value::Object(_) => {
+        if r.get("t").map(|t| t.is_null()).unwrap_or(true) {
+          r["t"] = json!("y");
+        }
+        true
+      }
+      _ => false,
+    }
+  }
+  fn fix_obj(o: &mut Value) {
+    if o.get("a").map(|a| a.is_null()).unwrap_or(true) {
+      o["a"] = json!("p0");
+    }
+    let keep = o.get_mut("r").map(fix_r);
+    if keep == Some(false) {
+      // (schema variant 2 requires `r`: keep it present and non-empty)
+      o["r"] = json!({"t": "z"});
+    }
+  }
+  let remove = match doc.get_mut("c") {
+    Some(Value::Array(a)) => {
+      a.retain(|x| !x.is_null());
+      a.iter_mut().for_each(fix_obj);
+      a.is_empty()
+    }
+    Some(o @ Value::Object(_)) => {
+      fix_obj(o);
+      false
+    }
+    Some(Value::Null) => false,
+    _ => false,
+  };
+  if remove {
+    if let Some(m) = doc.as_object_mut() {
+      m.remove("c");
+    }
+  }
+}
+
+fn contains_key_rec(v: &Value, key: &str) -> bool {
+  match v {
+    Value::Object(m) => m.iter().any(|(k, x)| k == key || contains_key_rec(x, key)),
+    Value::Array(a) => a.iter().any(|x| contains_key_rec(x, key)),
+    _ => false,
+  }
+}
+
+/// shape of the nested field `c` of a document: per element of `c` (a single object counts as a
+/// one-element array) whether it is null and, for objects, the shape of its child `r` (absent /
+/// null / number of elements and which of them are null).  The stored projection drops null
+/// elements, objects without stored non-null values and empty arrays, which changes this shape.
+fn nested_shape(doc: &Value) -> Value {
+  fn elems(v: &Value) -> Option<Vec<&Value>> {
+    match v {
+      Value::Null => None,
+      Value::Array(a) => Some(a.iter().collect()),
+      x => Some(vec![x]),
+    }
+  }
+  match doc.get("c").and_then(elems) {
+    None => Value::Null,
+    Some(es) => Value::Array(
+      es.iter()
+        .map(|e| match e {
+          Value::Null => json!("null"),
+          o => match o.get("r").and_then(elems) {
+            None => json!("obj"),
+            Some(rs) => Value::Array(rs.iter().map(|r| json!(if r.is_null() { "null" } else { "obj" })).collect()),
+          },
+        })
+        .collect(),
+    ),
+  }
+}
+
+fn nested_shape_changed(raw: &Value, stored: &Value) -> bool {
+  nested_shape(raw) != nested_shape(stored)
+}
+
+impl Prop for C14 {
   fn id(&self) -> &'static str {
     "C14"
   }
   fn rule(&self) -> &'static str {
-    "stub"
+    "case = (storage fs|mem, positions, schema variant 0..4, 2–5 commits of adds/upserts/deletes over 8 ids with documents containing empty arrays, nulls, multi-valued and nested values, ~20 queries + ~20 filters); observations before/after `compact` from fresh readers; non-trivial when (the schema is compact-safe, ≥2 segments and ≥1 live document existed before compaction and ≥6 probes selected a non-empty proper subset of the live documents) or (the schema is not compact-safe and ≥2 segments existed, i.e. the refusal path ran)"
   }
-  fn count(&self, _tier: Tier) -> usize {
-    0
+  fn count(&self, tier: Tier) -> usize {
+    tier.pick(60, 2000)
   }
-  fn gen(&self, _rng: &mut Rng, _tier: Tier, _i: usize) -> Value {
-    json!(null)
+  fn gen(&self, rng: &mut Rng, _tier: Tier, i: usize) -> Value {
+    let mem = rng.chance(1, 2);
+    let positions = rng.chance(2, 3);
+    // mostly the compact-safe schema; every 6th case a refusal schema, some with required props
+    let kind = match i % 12 {
+      5 => 1,
+      11 => 4,
+      3 => 2,
+      8 => 3,
+      _ => 0,
+    };
+    let n_batches = 2 + rng.below(4);
+    // half of the cases: nested values whose shape survives the stored projection (no null
+    // elements, every object has a stored non-null value, no empty child arrays), so that ANY change
+    // of a nested filter is reported under the general signature
+    let stable = rng.chance(1, 2);
+    let mut version = 0u64;
+    let mut batches = Vec::new();
+    for _ in 0..n_batches {
+      let mut adds = Vec::new();
+      let mut dels = Vec::new();
+      for _ in 0..(1 + rng.below(5)) {
+        version += 1;
+        let id = format!("d{}", rng.below(8));
+        let mut d = gen_doc(rng, &id, version % 12, kind);
+        if stable {
+          stabilise(&mut d);
+        }
+        adds.push(d);
+      }
+      for _ in 0..rng.below(3) {
+        dels.push(format!("d{}", rng.below(8)));
+      }
+      batches.push(json!({"adds": adds, "dels": dels, "dels_first": rng.chance(1, 2)}));
+    }
+    let queries: Vec<Value> = (0..20).map(|_| json!({"query": gen_query(rng, positions, 1)})).collect();
+    let filters: Vec<Value> = (0..20).map(|_| json!({"query": {"type": "match_all"}, "filter": gen_filter(rng, 2)})).collect();
+    json!({"mem": mem, "positions": positions, "schema_kind": kind, "shape_stable_nested": stable, "batches": batches, "queries": queries, "filters": filters})
   }
-  fn run_case(&self, _drv: &mut Driver, _case: &Value, _s: &mut Summary) {}
+
+  fn run_case(&self, drv: &mut Driver, case: &Value, s: &mut Summary) {
+    let mem = case["mem"].as_bool().unwrap_or(false);
+    let positions = case["positions"].as_bool().unwrap_or(true);
+    let kind = case["schema_kind"].as_u64().unwrap_or(0);
+    let schema = case.get("schema").cloned().unwrap_or_else(|| schema_json(kind));
+    let batches: Vec<Value> = case["batches"].as_array().cloned().unwrap_or_default();
+    let mut probes: Vec<Value> = case["queries"].as_array().cloned().unwrap_or_default();
+    let n_queries = probes.len();
+    probes.extend(case["filters"].as_array().cloned().unwrap_or_default());
+    s.count(if mem { "storage_mem" } else { "storage_fs" });
+    s.count(&format!("schema_kind_{kind}"));
+    if case["shape_stable_nested"].as_bool().unwrap_or(false) {
+      s.count("case_shape_stable_nested_values");
+    }
+
+    let store = Store::new(mem, positions);
+    let index = match store.create(&schema) {
+      Ok(i) => i,
+      Err(e) => {
+        s.case(case, false);
+        s.fail("compact.create", "index creation failed", case, json!(e));
+        return;
+      }
+    };
+    // ---- history (also sent to the model as a call list) ----
+    let mut mcalls: Vec<Value> = Vec::new();
+    let mut last_raw: BTreeMap<String, Value> = BTreeMap::new();
+    for (b, batch) in batches.iter().enumerate() {
+      let h = b as u64;
+      mcalls.push(json!({"op": "new", "h": h}));
+      let mut w = match index.writer() {
+        Ok(w) => w,
+        Err(e) => {
+          s.case(case, false);
+          s.disagree("compact.history", case, json!(e.to_string()), json!("writer ok"));
+          return;
+        }
+      };
+      let dels_first = batch["dels_first"].as_bool().unwrap_or(false);
+      let mut ops: Vec<(bool, Value)> = Vec::new();
+      let adds = batch["adds"].as_array().cloned().unwrap_or_default();
+      let dels = batch["dels"].as_array().cloned().unwrap_or_default();
+      if dels_first {
+        ops.extend(dels.iter().map(|d| (false, d.clone())));
+        ops.extend(adds.iter().map(|d| (true, d.clone())));
+      } else {
+        ops.extend(adds.iter().map(|d| (true, d.clone())));
+        ops.extend(dels.iter().map(|d| (false, d.clone())));
+      }
+      for (is_add, v) in ops {
+        let r = if is_add {
+          mcalls.push(json!({"op": "add", "h": h, "doc": v}));
+          let id = v["_id"].as_str().unwrap_or("").to_string();
+          last_raw.insert(id, v.clone());
+          w.add_document(&idx::doc(&v)).map(|_| ()).map_err(|e| e.to_string())
+        } else {
+          let id = v.as_str().unwrap_or("").to_string();
+          mcalls.push(json!({"op": "del", "h": h, "id": id}));
+          last_raw.remove(&id);
+          w.delete_document(&id).map_err(|e| e.to_string())
+        };
+        if let Err(e) = r {
+          s.case(case, false);
+          s.disagree("compact.history", case, json!(e), json!("call ok"));
+          return;
+        }
+      }
+      mcalls.push(json!({"op": "commit", "h": h}));
+      mcalls.push(json!({"op": "drop", "h": h}));
+      if let Err(e) = w.commit() {
+        s.case(case, false);
+        s.disagree("compact.history", case, json!(e.to_string()), json!("commit ok"));
+        return;
+      }
+    }
+    mcalls.push(json!({"op": "compact"}));
+    // ---- before ----
+    let (live_b, probes_b) = match observe(&index, &probes) {
+      Ok(x) => x,
+      Err(e) => {
+        s.case(case, false);
+        s.fail("compact.reader-before", "reader failed before compaction", case, json!(e));
+        return;
+      }
+    };
+    // should-clauses that expand over the term dictionary (prefix …), evaluated on their own
+    let exp_nodes: Vec<Vec<Value>> = probes.iter().map(|p| should_expansions(&p["query"])).collect();
+    let exp_probe_list: Vec<Value> = exp_nodes.iter().flatten().map(|n| json!({"query": n})).collect();
+    let exp_before = observe(&index, &exp_probe_list).map(|x| x.1).unwrap_or_default();
+    let segs_b = index.manifest().segments.len();
+    let tomb_b: usize = index.manifest().segments.iter().map(|g| g.deleted_docs.len()).sum();
+    let manifest_b = store.manifest_bytes();
+    let listing_b = store.listing();
+    // distribution of what the documents contain
+    let mut dropped_docs = 0;
+    for (id, st) in live_b.iter() {
+      if let Some(raw) = last_raw.get(id) {
+        if nested_shape_changed(raw, st) {
+          dropped_docs += 1;
+        }
+        if raw.get("c").map(|c| c.is_array() && c.as_array().unwrap().iter().any(|x| x.is_null())).unwrap_or(false) {
+          s.count("live_doc_nested_array_with_null_element");
+        }
+        if raw.as_object().map(|m| m.values().any(|v| v.is_null())).unwrap_or(false) {
+          s.count("live_doc_with_null_field");
+        }
+        if raw.as_object().map(|m| m.values().any(|v| v.as_array().map(|a| a.is_empty()).unwrap_or(false))).unwrap_or(false) {
+          s.count("live_doc_with_empty_array");
+        }
+        if raw.as_object().map(|m| m.iter().any(|(k, v)| k != "c" && v.as_array().map(|a| a.len() > 1).unwrap_or(false))).unwrap_or(false) {
+          s.count("live_doc_multi_valued");
+        }
+      }
+    }
+    if dropped_docs > 0 {
+      s.count("case_with_nested_shape_changed_by_projection");
+    }
+    // ---- compact ----
+    let res = match guarded(|| index.compact()) {
+      Ok(Ok(_)) => "ok".to_string(),
+      Ok(Err(e)) => {
+        let e = format!("{e:#}");
+        if e.contains("cannot compact index") {
+          "refused".to_string()
+        } else {
+          format!("failed: {e}")
+        }
+      }
+      Err(p) => format!("panic: {p}"),
+    };
+    let res_class = res.split(':').next().unwrap_or("").to_string();
+    s.count(&format!("compact_{res_class}"));
+    let manifest_a = store.manifest_bytes();
+    let listing_a = store.listing();
+    let segs_a = index.manifest().segments.len();
+    let tomb_a: usize = index.manifest().segments.iter().map(|g| g.deleted_docs.len()).sum();
+    let after = observe(&index, &probes);
+    // fresh process view as well (filesystem / shared in-memory storage)
+    let reopened = store.reopen().and_then(|ix| observe(&ix, &probes));
+
+    if std::env::var("VERIF_C14_DEBUG").is_ok() {
+      eprintln!("compact: {res} segs {segs_b}->{segs_a} tomb {tomb_b}->{tomb_a}");
+      for (k, p) in probes.iter().enumerate() {
+        eprintln!("probe {k} {} before {} after {}", p, probes_b[k], after.as_ref().map(|a| a.1[k].to_string()).unwrap_or_default());
+      }
+    }
+    let exp_after = observe(&index, &exp_probe_list).map(|x| x.1).unwrap_or_default();
+    // ---- finder: the property on the implementation alone ----
+    let safe_schema = kind != 1 && kind != 4 && case.get("schema").is_none();
+    let mut selective = 0;
+    for p in probes_b.iter() {
+      if let Some(ids) = p["ids"].as_array() {
+        if !ids.is_empty() && ids.len() < live_b.len() {
+          selective += 1;
+        }
+      }
+    }
+    match res_class.as_str() {
+      "panic" => s.fail("compact.panic", "compact panicked", case, json!(res)),
+      "refused" => {
+        if manifest_a != manifest_b {
+          s.fail("compact.refuse-changed-manifest", "compaction refused but MANIFEST.json changed", case, json!(res));
+        }
+        if listing_a != listing_b {
+          s.fail("compact.refuse-changed-files", "compaction refused but the file listing changed", case, json!({"before": listing_b, "after": listing_a}));
+        }
+      }
+      "failed" => {
+        // an error other than the documented refusal: nothing may change, and it is reported
+        if manifest_a != manifest_b {
+          s.fail("compact.error-changed-manifest", "compaction failed and MANIFEST.json changed", case, json!(res));
+        }
+        let sig = if res.contains("missing required nested field") {
+          "compact.error.stored-document-not-reingestable"
+        } else {
+          "compact.error.other"
+        };
+        s.fail(sig, "compaction of a compact-safe schema returns an error: a live document's stored form lacks a required nested property, so re-ingesting it fails (on the filesystem backend a partial segment file is left behind)", case, json!({"error": res, "files_left_behind": listing_a != listing_b}));
+      }
+      _ => {
+        if segs_a > 1 {
+          s.fail("compact.not-single-segment", "more than one segment after compaction", case, json!(segs_a));
+        }
+        if segs_b >= 2 && tomb_a > 0 {
+          s.fail("compact.tombstones-left", "deleted documents remain after compaction of several segments", case, json!(tomb_a));
+        }
+      }
+    }
+    for (label, obs) in [("after", &after), ("after-reopen", &reopened)] {
+      match obs {
+        Err(e) => s.fail("compact.reader-after", "reader failed after compaction", case, json!({"when": label, "error": e})),
+        Ok((live_a, probes_a)) => {
+          let ids_b: Vec<&String> = live_b.keys().collect();
+          let ids_a: Vec<&String> = live_a.keys().collect();
+          if ids_a != ids_b {
+            s.fail("compact.live-ids-changed", "compaction changed which documents are live", case, json!({"when": label, "before": ids_b, "after": ids_a}));
+            continue;
+          }
+          if *live_a != live_b {
+            let id = live_b.iter().find(|(k, v)| live_a.get(*k) != Some(v)).map(|(k, _)| k.clone());
+            s.fail("compact.stored-fields-changed", "compaction changed stored fields", case, json!({"when": label, "id": id}));
+          }
+          for (k, (pb, pa)) in probes_b.iter().zip(probes_a.iter()).enumerate() {
+            if pb == pa {
+              continue;
+            }
+            if pb.get("ids").is_none() || pa.get("ids").is_none() {
+              // a search error or panic on one side (C16's subject), not a statement about compaction
+              s.count("probe_not_comparable_search_error_or_panic");
+              continue;
+            }
+            let is_filter = k >= n_queries;
+            // classification of the difference from implementation observations only
+            let changed: Vec<String> = {
+              let b: Vec<String> = pb["ids"].as_array().map(|a| a.iter().filter_map(|x| x.as_str().map(String::from)).collect()).unwrap_or_default();
+              let a: Vec<String> = pa["ids"].as_array().map(|a| a.iter().filter_map(|x| x.as_str().map(String::from)).collect()).unwrap_or_default();
+              b.iter().filter(|x| !a.contains(x)).chain(a.iter().filter(|x| !b.contains(x))).cloned().collect()
+            };
+            let all_dropped = !changed.is_empty()
+              && changed.iter().all(|id| match (last_raw.get(id), live_b.get(id)) {
+                (Some(raw), Some(st)) => nested_shape_changed(raw, st),
+                _ => false,
+              });
+            let nested_filter = contains_key_rec(&probes[k], "Nested");
+            // a should-clause of this probe that matches no live document before and after
+            let offset: usize = exp_nodes[..k].iter().map(|v| v.len()).sum();
+            let dead_expansion = (0..exp_nodes[k].len()).any(|j| {
+              let e = json!({"ids": []});
+              exp_before.get(offset + j) == Some(&e) && exp_after.get(offset + j) == Some(&e)
+            });
+            let superset = {
+              let b: Vec<&Value> = pb["ids"].as_array().map(|a| a.iter().collect()).unwrap_or_default();
+              let a: Vec<&Value> = pa["ids"].as_array().map(|a| a.iter().collect()).unwrap_or_default();
+              pb.get("ids").is_some() && pa.get("ids").is_some() && b.iter().all(|x| a.contains(x))
+            };
+            let sig = if !is_filter && dead_expansion && superset {
+              "compact.query-changed.should-expansion-clause-without-live-match"
+            } else if is_filter && nested_filter && all_dropped {
+              "compact.nested-filter-changed.stored-projection-changes-nested-shape"
+            } else if is_filter {
+              "compact.filter-result-changed"
+            } else if nested_filter && all_dropped {
+              "compact.nested-filter-changed.stored-projection-changes-nested-shape"
+            } else {
+              "compact.query-result-changed"
+            };
+            s.fail(sig, "a probe matches different documents after compaction", case, json!({"when": label, "probe": probes[k], "before": pb, "after": pa, "changed_docs": changed}));
+          }
+        }
+      }
+    }
+    let _ = tomb_b;
+    // ---- correspondence with the model ----
+    let m = drv.call("C14", json!({"op": "run", "mem": mem, "schema": schema, "calls": mcalls}));
+    let steps = m["steps"].as_array().cloned().unwrap_or_default();
+    let sub = json!({"case": case});
+    if m["ok"] != json!(true) || steps.len() != mcalls.len() {
+      s.disagree("compact.driver", &sub, json!(null), m);
+    } else {
+      let before_m = &steps[steps.len() - 2];
+      let after_m = &steps[steps.len() - 1];
+      if model_contents(&before_m["contents"]) != live_b {
+        s.disagree("compact.contents-before", &sub, json!(live_b), before_m["contents"].clone());
+      }
+      if after_m["res"].as_str() != Some(res_class.as_str()) {
+        s.disagree("compact.result", &sub, json!(res), after_m["res"].clone());
+      } else if let Ok((live_a, _)) = &after {
+        if model_contents(&after_m["contents"]) != *live_a {
+          s.disagree("compact.contents-after", &sub, json!(live_a), after_m["contents"].clone());
+        }
+        if after_m["segments"].as_u64() != Some(segs_a as u64) {
+          s.disagree("compact.segments-after", &sub, json!(segs_a), after_m["segments"].clone());
+        }
+        if after_m["tombstones"].as_u64() != Some(tomb_a as u64) {
+          s.disagree("compact.tombstones-after", &sub, json!(tomb_a), after_m["tombstones"].clone());
+        }
+      }
+      if m["safe"].as_bool() != Some(safe_schema) && case.get("schema").is_none() {
+        s.disagree("compact.safe-schema", &sub, json!(safe_schema), m["safe"].clone());
+      }
+      // stored projection of every live document
+      for (id, st) in live_b.iter() {
+        if let Some(raw) = last_raw.get(id) {
+          let pm = drv.call("C14", json!({"op": "project", "schema": schema, "doc": raw}));
+          if canon(&pm["stored"]) != *st {
+            s.disagree("compact.stored-projection", &json!({"schema_kind": kind, "doc": raw}), st.clone(), pm["stored"].clone());
+          }
+        }
+      }
+    }
+    let nontrivial = if safe_schema { segs_b >= 2 && !live_b.is_empty() && selective >= 6 } else { segs_b >= 2 };
+    s.case(case, nontrivial);
+  }
 }
